@@ -89,26 +89,30 @@ func spec_shaped(rs FuncResults, n int) bool {
 //@ func funcResultsResolver.resultsFromAstAt
 //@   trusted
 //@   assigns *
-//@   preserves pkg/types.funcResultsResolver. pkg/types.pkgInfo. golang.org/x/tools/go/packages.
+//@   preserves pkg/types.funcResultsResolver. pkg/types.pkgInfo. golang.org/x/tools/go/packages. $syncmap:
 //@   note ASSUMED frame of the per-slot resolver (not verified: go/ast traversal through ast.Inspect callbacks): it never stores into a funcResultsResolver
 
 //@ func funcResultsResolver.resultsAtReturnOrAssignment
 //@   trusted
 //@   assigns *
-//@   preserves pkg/types.funcResultsResolver. pkg/types.pkgInfo. golang.org/x/tools/go/packages.
+//@   preserves pkg/types.funcResultsResolver. pkg/types.pkgInfo. golang.org/x/tools/go/packages. $syncmap:
 //@ func funcResultsResolver.resultsAt
-//@   trusted
+//@   props C14
+//@   requires r != nil && r.sig != nil && r.pkgInfo != nil && r.Package != nil && r.Package.TypesInfo != nil && r.u != nil
+//@   assume forall x *ast.SelectorExpr :: x != nil ==> x.Sel != nil
+//@   assume forall f *types.Func :: f != nil ==> f.Pkg() != nil && f.Signature() != nil && r.u.Package(f.Pkg().Path()) != nil && spec_pkgInfoOf(r.u.Package(f.Pkg().Path())) != nil
 //@   assigns *
-//@   preserves pkg/types.funcResultsResolver. pkg/types.pkgInfo. golang.org/x/tools/go/packages.
+//@   preserves pkg/types.funcResultsResolver. pkg/types.pkgInfo. golang.org/x/tools/go/packages. $syncmap:
+//@   note frame (verified): resolving one result slot stores nothing into a resolver, a pkgInfo, the loaded records or ANY sync.Map - in particular it keeps no memo of partial answers (an answer computed while the recursion guard is active is not a function of the function alone: C14 "the answer is the same on every call")
 //@   note ASSUMED frames (like resultsFromAstAt): the mutually recursive resolver iterators never store into a resolver, a pkgInfo or the loaded go/packages records
 
 //@ func funcResultsResolver.callExprResultAt
 //@   props C14
-//@   requires r != nil && r.pkgInfo != nil && r.Package != nil && r.Package.TypesInfo != nil && callExpr != nil
+//@   requires r != nil && r.pkgInfo != nil && r.Package != nil && r.Package.TypesInfo != nil && r.u != nil && callExpr != nil
 //@   assigns *
-//@   preserves pkg/types.funcResultsResolver. pkg/types.pkgInfo. golang.org/x/tools/go/packages.
+//@   preserves pkg/types.funcResultsResolver. pkg/types.pkgInfo. golang.org/x/tools/go/packages. $syncmap:
 //@   lit 1 nopanic
-//@   lit 1 requires r != nil && r.pkgInfo != nil && r.Package != nil && r.Package.TypesInfo != nil && callExpr != nil
+//@   lit 1 requires r != nil && r.pkgInfo != nil && r.Package != nil && r.Package.TypesInfo != nil && r.u != nil && callExpr != nil
 //@   lit 1 assume forall x *ast.FuncLit :: x != nil ==> x.Type != nil
 //@   lit 1 assume forall t *types.Tuple, i int :: 0 <= i && i < t.Len() ==> t.At(i) != nil && t.At(i).Type() != nil
 //@   note (assume) go/ast: a function literal has a Type; go/types: a variable (tuple element) has a type
@@ -331,7 +335,7 @@ func spec_importsOK(p *pkgInfo) bool {
 //@   ensures eq(result, p.Package.Syntax)
 
 //@ func pkgInfo.SourceDir
-//@   props C13 C07
+//@   props C13 C07 C01
 //@   requires p != nil
 //@   assigns p.sourceDir
 //@   ensures old(p.sourceDir) != nil ==> result == old(*p.sourceDir)
@@ -660,7 +664,7 @@ func spec_hasTrailingAt(p *pkgInfo, pos token.Pos) bool {
 //@   ensures !(deltaLines == 0 && spec_hasTrailingAt(p, pos)) ==> result == spec_leadingAt(p, pos, deltaLines)
 
 //@ func pkgInfo.Doc
-//@   props C12 C06
+//@   props C12 C06 C05
 //@   pure
 //@   requires p != nil && p.Package != nil && p.Package.Fset != nil
 //@   ensures result0 != nil
